@@ -111,11 +111,33 @@ def rule_V1b(ctx) -> None:
                     if id(c) not in protected:
                         bad.append(c)
         if bad:
+            # not in a try: then every path that reaches the read has established that the member is the selected one
+            # (_include_default_value_for_oneof, proved by O5 to hold exactly for the selected member) or is in no group
+            bad = [c for c in bad if not _read_guarded(mod, fn, c)]
+        if bad:
             ctx.refuted("V1b", f"{name}:tolerates-unselected-oneof", "bare-getattr", mod.loc(bad[0]),
                         f"{name} reads every field with getattr(self, field_name) outside a try/except AttributeError: for a message with a oneof it raises as soon as a member is not the selected one",
                         f"M(a=1).{name}() where a, b form a oneof")
         else:
             ctx.proved("V1b", f"{name}:tolerates-unselected-oneof", mod.loc(fn), f"{n_reads} tracked reads, all protected")
+
+
+def _read_guarded(mod, fn, call: ast.Call) -> bool:
+    from ..fieldloop import META, FIELD_NAME, SELF
+    incl = ("call", A(SELF, "_include_default_value_for_oneof"), (), (("field_name", FIELD_NAME), ("meta", META)))
+    incl_pos = ("call", A(SELF, "_include_default_value_for_oneof"), (FIELD_NAME, META), ())
+    paths = interp_for(mod).run(fn)
+    seen = False
+    for p in paths:
+        hit = [e for e in p.events if e.kind == "call" and e.line == call.lineno and dotted(e.data[1]) == "getattr"]
+        if not hit:
+            continue
+        seen = True
+        v = p.valuation
+        if v.get(A(META, "group")) is False or v.get(incl) is True or v.get(incl_pos) is True:
+            continue
+        return False
+    return seen
 
 
 def _catches_attr(h: ast.ExceptHandler) -> bool:
